@@ -33,7 +33,11 @@ import (
 )
 
 func TestSim(t *testing.T) {
-	hysim.Main(t, &hysim.Harness{Name: "c03realm", Gen: genC03Realm, Exec: execC03Realm})
+	hysim.Main(t,
+		&hysim.Harness{Name: "c03realm", Gen: genC03Realm, Exec: execC03Realm},
+		// the same workload in a race-detector build (part c03realmrace)
+		&hysim.Harness{Name: "c03realmrace", Gen: genC03Realm, Exec: execC03Realm},
+	)
 }
 
 func genC03Realm(r *hysim.Rand, tier string) *hysim.Script {
@@ -268,10 +272,10 @@ func execC03Realm(x *hysim.Run) {
 		case "discover":
 			w.discover(op, stunSrv, other)
 		case "canary":
-			synctest.Wait()
+			hysim.Settle()
 			w.canary(mut.Clamp(op.Arg(0), 1, 4), mut.Clamp(op.Arg(1), 1, 1400))
 		}
-		synctest.Wait()
+		hysim.Settle()
 		mut.AllocSince(x, a0, "realm demultiplexer, op "+op.K, fmt.Sprintf("op args %v", op.A))
 	}
 	if dropped > 0 {
